@@ -245,7 +245,10 @@ theorem polymorphRecord_ok (poly : List (LTerm × Rat)) (order : List Label) (re
     ∧ out.vars = (if keep then resp.vars else order)
     ∧ out.fields = ["sample", "energy", "penalty_satisfaction"] ++ resp.names
     ∧ out.vt = resp.vt
-    ∧ out.info = outInfo reduction strength resp.info := by
+    ∧ out.info = outInfo reduction strength resp.info
+    ∧ out.satDtype = (if discard then
+          (if (resp.rows.filter (fun r => !discard || penaltySatisfied reduction (rowFn resp.vars r.sample))).isEmpty then .float64 else .bool)
+        else if reduction.isEmpty then (if resp.rows.isEmpty then .float64 else .int64) else .int64) := by
   unfold polymorphRecord at h
   split at h
   · simp at h
@@ -262,23 +265,23 @@ theorem polymorphRecord_ok (poly : List (LTerm × Rat)) (order : List Label) (re
         · simp at h
         · simp only [Except.ok.injEq] at h
           subst h
-          refine ⟨?_, rfl, rfl, rfl, ?_⟩
+          have hkept : maskFilter resp.rows (if discard then pv.map (fun n => n != 0) else resp.rows.map (fun _ => true))
+              = resp.rows.filter (fun r => !discard || penaltySatisfied reduction (rowFn resp.vars r.sample)) := by
+            cases discard with
+            | true =>
+              have e : (if true = true then pv.map (fun n => n != 0) else resp.rows.map (fun _ => true)) = pv.map (fun n => n != 0) := by simp
+              rw [e, hpv', List.map_map, maskFilter_map]
+              apply List.filter_congr
+              intro r _
+              cases hps : penaltySatisfied reduction (rowFn resp.vars r.sample) <;> simp [hps]
+            | false =>
+              have e : (if false = true then pv.map (fun n => n != 0) else resp.rows.map (fun _ => true)) = resp.rows.map (fun _ => true) := by simp
+              rw [e, maskFilter_map]
+              apply List.filter_congr
+              intro r _
+              simp
+          refine ⟨?_, rfl, rfl, rfl, ?_, ?_⟩
           · -- the kept rows
-            have hkept : maskFilter resp.rows (if discard then pv.map (fun n => n != 0) else resp.rows.map (fun _ => true))
-                = resp.rows.filter (fun r => !discard || penaltySatisfied reduction (rowFn resp.vars r.sample)) := by
-              cases discard with
-              | true =>
-                have e : (if true = true then pv.map (fun n => n != 0) else resp.rows.map (fun _ => true)) = pv.map (fun n => n != 0) := by simp
-                rw [e, hpv', List.map_map, maskFilter_map]
-                apply List.filter_congr
-                intro r _
-                cases hps : penaltySatisfied reduction (rowFn resp.vars r.sample) <;> simp [hps]
-              | false =>
-                have e : (if false = true then pv.map (fun n => n != 0) else resp.rows.map (fun _ => true)) = resp.rows.map (fun _ => true) := by simp
-                rw [e, maskFilter_map]
-                apply List.filter_congr
-                intro r _
-                simp
             rw [hkept] at hen ⊢
             generalize hk : resp.rows.filter (fun r => !discard || penaltySatisfied reduction (rowFn resp.vars r.sample)) = kept at hen ⊢
             -- energies
@@ -325,6 +328,8 @@ theorem polymorphRecord_ok (poly : List (LTerm × Rat)) (order : List Label) (re
             · simp at hen
           · unfold outInfo
             cases strength <;> rfl
+          · simp only
+            rw [hkept]
 
 /-- **when `polymorph_response` raises** -/
 theorem polymorphRecord_error_iff (poly : List (LTerm × Rat)) (order : List Label) (horder : ∀ v ∈ order, v ∈ polyVars poly)
